@@ -1,6 +1,6 @@
 (* Properties/C19.v -- embedded Python keeps its meaning through analysis and re-emission *)
 From MakoV Require Import Lib.Str Gen.AstUtil Model.Margin Model.PyScope Model.PyExpr
-  Proofs.MarginProofs Proofs.PyScopeProofs Proofs.PyExprProofs.
+  Proofs.MarginProofs Proofs.PyScopeProofs Proofs.PyScopeGeneral Proofs.PyExprProofs.
 Open Scope N_scope.
 
 (* ---- (c) re-margining ---------------------------------------------------------------------- *)
@@ -62,6 +62,15 @@ Theorem C19_scope_exact_without_nested_scopes_partial : forall n code,
   (forall x, In x (snd (find_identifiers_f n code)) -> In x (free_stmts n code)).
 Proof. exact scope_exact_without_nested_scopes. Qed.
 Print Assumptions C19_scope_exact_without_nested_scopes_partial.
+
+(* for every program and every depth -- nested defs, lambdas with every parameter kind and defaults,
+   comprehensions, loops, try blocks --: every name the code needs from the template's namespace is
+   recorded as undeclared, unless the analysis records it as declared by the block itself (which is
+   the one way a needed name can be lost: see the refuted statement below) *)
+Theorem C19_needed_names_demanded_or_declared : forall n code x,
+  In x (needs_f n code) -> In x (snd (find_identifiers_f n code)) \/ In x (fst (find_identifiers_f n code)).
+Proof. exact needed_names_demanded_or_declared. Qed.
+Print Assumptions C19_needed_names_demanded_or_declared.
 
 (* in general both directions are false of the faithful model: flow-sensitive locals of nested functions,
    and comprehension targets at block level (known finding C19-F2) *)
